@@ -31,4 +31,6 @@ CASES = [
          old="            if not has_value:\n                has_value = True\n                last_key = key", new="            if last_key is None:\n                has_value = True\n                last_key = key")]),
     dict(expect="fire", desc="scan: accumulation truth-tested instead of has_accumulation", names="E4-element-truthiness", edits=[dict(file="reactivex/operators/_scan.py",
          old="            if has_accumulation:", new="            if accumulation:")]),
+    dict(expect="fire", desc="seed C08-r2/3: combine_latest gates on all(values)", names="E4-element-truthiness", edits=[dict(file="reactivex/observable/combinelatest.py",
+         old="            has_value_all = has_value_all or all(has_value)", new="            has_value_all = has_value_all or all(values)")]),
 ]
